@@ -37,6 +37,9 @@ func (st *Transfer) SendFiles(fileList *fileList) error {
 			}
 			break
 		}
+		if fileIndex < 0 || int(fileIndex) >= len(fileList.Files) {
+			return fmt.Errorf("protocol error: file index %d out of range (file list has %d entries)", fileIndex, len(fileList.Files))
+		}
 
 		if st.Opts.DryRun() {
 			if err := st.Conn.WriteInt32(fileIndex); err != nil {
